@@ -1178,6 +1178,12 @@ def _iter_next(I, f, a):
     it = _it(I, a[0])
     return it.next(I)
 
+@model_re(r"^<std::(iter|slice|vec|str|collections|option|result)::[^ ]+( as|<.*> as) std::iter::Iterator>::next$")
+def _generic_iter_next(I, f, a):
+    """`next` of any std adaptor the interpreter represents by one of its own iterator objects"""
+    return _iter_next(I, f, a)
+
+
 
 @model("std::iter::range::<impl std::iter::Iterator for std::ops::Range<A>>::next")
 def _range_next(I, f, a):
@@ -1811,6 +1817,17 @@ def _panic(I, f, a):
     raise PathEnd("panic", "explicit panic")
 
 
+@model_re(r"^(color_eyre::eyre|eyre)::(WrapErr|ContextCompat|Context)::(wrap_err_with|wrap_err|context|with_context)$")
+def _eyre_wrap(I, f, a):
+    """Result<T, E>.wrap_err(..): Ok passes through, Err becomes a report (the message closure is not evaluated: it only formats)"""
+    r = a[0]
+    if isinstance(r, Agg) and r.adt == RESULT:
+        return r if r.variant == 0 else err(Opaque("eyre::Report"))
+    if isinstance(r, Agg) and r.adt == OPTION:
+        return ok(r.fields[0]) if is_some(r) else err(Opaque("eyre::Report"))
+    raise I.unanalysable("wrap_err on %r" % (r,))
+
+
 @model("color_eyre::eyre::private::format_err", "color_eyre::eyre::private::new_adhoc")
 def _eyre(I, f, a):
     I.run.event("err_constructed", I.where())
@@ -1917,6 +1934,31 @@ def _all(I, f, a):
     return True
 
 
+@model("std::iter::Iterator::min", "std::iter::Iterator::max")
+def _iter_minmax(I, f, a):
+    it = into_iter(I, a[0])
+    items = list(_drive(I, it))
+    if not items:
+        return none()
+    if len(items) == 1:
+        return some(items[0])
+    vals = [I.load(x) if isinstance(x, Ref) else x for x in items]
+    lo = min(bounds(v)[0] if is_sym(v) else v for v in vals)
+    hi = max(bounds(v)[1] if is_sym(v) else v for v in vals)
+    s_ = Sym("min" if f["path"].endswith("min") else "max", tuple(v for v in vals if is_sym(v)), "usize", lo, hi)
+    return some(Ref(Box_(s_, "m"), ()) if isinstance(items[0], Ref) else s_)
+
+
+@model("std::iter::Iterator::sum", "std::iter::Iterator::product")
+def _iter_sum(I, f, a):
+    it = into_iter(I, a[0])
+    acc = 0 if f["path"].endswith("sum") else 1
+    for x in _drive(I, it):
+        v = I.load(x) if isinstance(x, Ref) else x
+        acc = I.binop("Add" if f["path"].endswith("sum") else "Mul", acc, v, "usize")
+    return acc
+
+
 @model("std::iter::Iterator::count")
 def _count(I, f, a):
     it = into_iter(I, a[0])
@@ -1964,6 +2006,90 @@ def _skip(I, f, a):
     for _ in range(n):
         it.next(I)
     return it
+
+
+@model_re(r"^(std::iter::Iterator::fold|<.* as std::iter::Iterator>::fold)$")
+def _iter_fold(I, f, a):
+    it = into_iter(I, a[0])
+    acc = a[1]
+    for x in _drive(I, it):
+        acc = I.call_closure(a[2], [acc, x])
+    return acc
+
+
+@model("std::iter::from_fn")
+def _iter_from_fn(I, f, a):
+    cl = a[0]
+
+    class FromFn(It):
+        done = False
+
+        def next(self, I2):
+            if self.done:
+                return none()
+            r = I2.call_closure(Ref(Box_(cl, "from_fn"), ()) if not isinstance(cl, Ref) else cl, [])
+            if not is_some(r):
+                self.done = True
+            return r
+    return FromFn()
+
+
+@model("core::slice::<impl [T]>::split_first")
+def _slice_split_first(I, f, a):
+    v = deref(I, a[0])
+    n = length_of(I, v)
+    if I.truth(I.binop("Eq", n, 0, "usize")):
+        return none()
+    if isinstance(v, Bytes):
+        head = Ref(ByteSlot(v, 0, I), ())
+        rest = bytes_slice(I, v, 1, n)
+    else:
+        el = list(as_elems(I, v))
+        head = Ref(ListSlot(el, 0), ())
+        rest = SliceView(v, 1, len(el)) if not hasattr(v, "slice") else v.slice(I, 1, n)
+    return some(Agg("tuple", None, [head, Ref(Box_(rest, "rest"), ())]))
+
+
+@model("core::slice::<impl [T]>::split_first_chunk")
+def _slice_split_first_chunk(I, f, a):
+    """(&[T; N], &[T]) when the slice has at least N elements"""
+    v = deref(I, a[0])
+    targs = (f.get("args") or []) + ((f.get("res") or {}).get("args") or [])
+    nm = next((t for t in reversed(targs) if re.fullmatch(r"\w+", str(t)) and (str(t).isdigit() or str(t)[0].isupper())), None)
+    if nm is None:
+        raise I.unanalysable("split_first_chunk without a chunk size")
+    k = int(nm) if str(nm).isdigit() else I.const_param(I.frames[-1], nm, "usize")
+    n = length_of(I, v)
+    if I.truth(I.binop("Lt", n, k, "usize")):
+        return none()
+    if isinstance(v, Bytes):
+        arr = Agg("array", None, [byte_at(I, v, i) for i in range(k)])
+        rest = bytes_slice(I, v, k, n)
+    else:
+        el = list(as_elems(I, v))
+        arr = Agg("array", None, el[:k])
+        rest = SliceView(v, k, len(el))
+    return some(Agg("tuple", None, [Ref(Box_(arr, "chunk"), ()), Ref(Box_(rest, "rest"), ())]))
+
+
+@model("std::iter::Iterator::skip_while")
+def _skip_while(I, f, a):
+    it = into_iter(I, a[0])
+    pred = a[1]
+
+    class SW(It):
+        skipping = True
+
+        def next(self, I2):
+            while True:
+                r = it.next(I2)
+                if not is_some(r):
+                    return r
+                if self.skipping and I2.truth(I2.call_closure(pred, [Ref(Box_(r.fields[0], "item"), ())])):
+                    continue
+                self.skipping = False
+                return r
+    return SW()
 
 
 @model("std::iter::Iterator::take_while")
